@@ -19,7 +19,7 @@ timeout 600 /venv/bin/python _seed/demo$N.py > "$OUT/$NAME.demo_patched.txt" 2>&
 RES=""
 for id in $(echo "$IDS" | tr ',' ' '); do
   o=$(VERIF_REPO="$WT" VERIF_EVIDENCE_DIR="$WT/_ev" VERIF_REPLAY_DIR="$WT/_rp" "$HERE/simcheck" "$id" --tier quick 2>&1); e=$?
-  cl=$(echo "$o" | grep -E "^  clause=" | head -3 | sed 's/"/\x27/g; s/\\/\//g' | cut -c1-200 | tr '\n' '|')
+  cl=$(echo "$o" | grep -E "^  clause=" | head -3 | sed 's/"/\x27/g; s/\\/\//g' | cut -c1-200 | tr '\n' '|' | tr -d '\000-\037')
   RES="$RES{\"check\":\"$id\",\"exit\":$e,\"clauses\":\"$cl\"},"
 done
 if [ "$FULL" = "full" ]; then
